@@ -1861,3 +1861,70 @@ func closersAreExpectedAfterTheNewlines(c *core.Ctx) {
 	}
 	c.Stat("sequence_closers", n)
 }
+
+// ---------------------------------------------------------------------------
+// memoIsReadWhereItIsWritten: a function that looks a key up in a map field of
+// one object and, on a miss, computes the entry and stores it under the same
+// key in the same field of another object never finds what it stored.  In the
+// symbol table this made every reference to a captured variable from inside a
+// nested block a new free variable of the function (one more cell per
+// reference, pushed when the closure is made).
+func memoIsReadWhereItIsWritten(c *core.Ctx) {
+	p := c.P
+	n := 0
+	for _, fn := range repoFns(p, "compiler") {
+		type acc struct {
+			obj  ssa.Value
+			key  ssa.Value
+			at   ssa.Instruction
+			fld  int
+			onTy *types.Named
+		}
+		var reads, writes []acc
+		for _, b := range fn.Blocks {
+			for _, in := range b.Instrs {
+				switch x := in.(type) {
+				case *ssa.Lookup:
+					if u, ok := x.X.(*ssa.UnOp); ok {
+						if fa, ok := u.X.(*ssa.FieldAddr); ok {
+							reads = append(reads, acc{fa.X, x.Index, in, fa.Field, core.NamedOf(fa.X.Type())})
+						}
+					}
+				case *ssa.MapUpdate:
+					if u, ok := x.Map.(*ssa.UnOp); ok {
+						if fa, ok := u.X.(*ssa.FieldAddr); ok {
+							writes = append(writes, acc{fa.X, x.Key, in, fa.Field, core.NamedOf(fa.X.Type())})
+						}
+					}
+				}
+			}
+		}
+		for _, w := range writes {
+			matched, same := false, false
+			var r acc
+			for _, rd := range reads {
+				if rd.onTy == nil || rd.onTy != w.onTy || rd.fld != w.fld || rd.key != w.key {
+					continue
+				}
+				if !instrReaches(rd.at, w.at) {
+					continue
+				}
+				matched = true
+				r = rd
+				if rd.obj == w.obj || core.SameStorage(rd.obj, w.obj) {
+					same = true
+				}
+			}
+			if matched {
+				n++
+				st := r.onTy.Underlying().(*types.Struct)
+				c.Check(same, core.SSAName(fn)+"|"+st.Field(r.fld).Name()+"|read-where-it-is-written", p.Pos(w.at.Pos()),
+					core.SSAName(fn)+" looks a key up in "+r.onTy.Obj().Name()+"."+st.Field(r.fld).Name()+" and later stores under the same key"+ife(same, " in the same table", " in the table of another object: the lookup never finds what was stored, so the entry is computed and appended again on every call (a captured variable referenced from a nested block becomes a new free variable each time)"))
+			}
+		}
+	}
+	if n == 0 {
+		core.Undecidedf("no function of package compiler both looks up and stores a key in one map field")
+	}
+	c.Stat("memo_read_write_pairs", n)
+}
